@@ -36,7 +36,19 @@ template <typename T> static void mat_check(int n, T scale, T shift, int pattern
   if (!(e1 < 100 * n * eps && e2 < 100 * n * eps && e3 < 100 * n * eps && shape) && !bad++)
     printf("UpperHessenbergQR n=%d scale=%g shift=%g pattern=%d: |QR-(H-sI)|=%Lg |Q'Q-I|=%Lg |QtHQ-Q'HQ|=%Lg shape=%d\n", n, (double)scale, (double)shift, pattern, e1, e2, e3, (int)shape);
 }
+// TridiagQR: Q'TQ written into a destination that ALREADY has the right size and holds arbitrary data must still be exactly tridiagonal and symmetric
+template <typename T> static void tridiag_reuse_check(int n) {
+  typedef Eigen::Matrix<T, Eigen::Dynamic, Eigen::Dynamic> Mat;
+  Mat Tm = Mat::Zero(n, n); for (int i = 0; i < n; i++) { Tm(i, i) = T(1 + (i * 3) % 5); if (i + 1 < n) { Tm(i + 1, i) = T(0.5 + i % 2); Tm(i, i + 1) = Tm(i + 1, i); } }
+  TridiagQR<T> qr(Tm, T(0.3));
+  Mat fresh; qr.matrix_QtHQ(fresh);
+  Mat dest = Mat::Constant(n, n, T(7)); qr.matrix_QtHQ(dest);
+  bool ok = (dest - fresh).norm() == 0;
+  for (int i = 0; i < n && ok; i++) for (int j = 0; j < n; j++) if (std::abs(i - j) > 1 && dest(i, j) != 0) ok = false;
+  if (!ok && !bad++) printf("TridiagQR n=%d: matrix_QtHQ into a reused (pre-filled, same size) destination differs from a fresh one / is not tridiagonal\n", n);
+}
 int main(int argc, char** argv) {
+  for (int n = 2; n <= 7; n++) { tridiag_reuse_check<double>(n); tridiag_reuse_check<float>(n); }
   if (argc > 2) { rot_check<float>((float)atof(argv[1]), (float)atof(argv[2])); rot_check<double>(atof(argv[1]), atof(argv[2])); }
   const double v[] = {0.0, 1.0, -1.0, 3.0, -2.5, 1e-30, 1e30, 1e-200, 1e150, -1e153, 5e-324, 1e300};
   for (double a : v) for (double b : v) { rot_check<double>(a, b); if (std::abs(a) < 1e37 && std::abs(b) < 1e37) rot_check<float>((float)a, (float)b); }
